@@ -88,9 +88,21 @@ CHECKS = {
                 "decimal bound is taken from Rust's parser; diagnostics compared as multisets of (level, short description).",
         "technique": "Coq proof over a translator-regenerated rule table + differential correspondence at the boundaries",
     },
+    "C17": {
+        "text": "The three reference tables are regenerated from the source files on every run (T2a) and every clause of the property is a finite, exhaustive "
+                "computation over the indices 1..230 inside Coq, lifted to a universally quantified theorem with the bound in the statement: table sizes, "
+                "distinct symbols, index / Hermann-Mauguin / Hall agreement through the model of Symmetry::new, Z = number of operators with the identity "
+                "first, pairwise distinct operators, integer rotations of determinant +-1, translations multiples of 1/12, closure under composition modulo "
+                "the lattice, the neighbours 0 and 231, the mmCIF round trip for all groups and the CRYST1 round trip for all groups whose symbol fits its "
+                "ten columns (the 14 others are proved to fail: known finding). Exhaustive correspondence on the crate in two build profiles.",
+        "design_ref": "DESIGN.md section 6 C17",
+        "note": "Trusted: Coq kernel (vm_compute), T2a translator, extraction, harness. The CRYST1 field layout ('  ' + {:10}{:3}, columns 55..66) is "
+                "hand-modelled and tied by the exhaustive round trip on the crate.",
+        "technique": "Coq proof by exhaustive computation over translator-regenerated tables (forallb lifted by forallb_forall) + exhaustive correspondence",
+    },
 }
 
 NOT_APPLICABLE = [
     {"property_id": p, "reason": PENDING}
-    for p in ["C01", "C02", "C03", "C04", "C05", "C06", "C13", "C14", "C15", "C16", "C17"]
+    for p in ["C01", "C02", "C03", "C04", "C05", "C06", "C13", "C14", "C15", "C16"]
 ]
